@@ -17,6 +17,9 @@ func (fr *frame) call(x *ssa.Call) Value {
 	in := fr.in
 	cc := x.Common()
 	if cc.IsInvoke() {
+		if v, ok := fr.invoke(x); ok {
+			return v
+		}
 		recv := fr.get(cc.Value)
 		for _, a := range cc.Args {
 			fr.havocValue(fr.get(a), "passed to interface method "+cc.Method.Name())
@@ -80,6 +83,8 @@ func (fr *frame) havocValue(v Value, why string) {
 		if a.V != nil {
 			fr.havocValue(a.V, why)
 		}
+	case Hash:
+		a.N.Kids[0].Leaf = Opaque{why}
 	}
 }
 
@@ -387,6 +392,9 @@ func (fr *frame) stdlib(x *ssa.Call, callee *ssa.Function, args []Value) (Value,
 		full = callee.Pkg.Pkg.Path() + "." + o.Name() // instantiation of a generic (slices.Clone[[]byte])
 	}
 	if callee.Signature.Recv() != nil {
+		if v, ok := fr.cryptoHashNew(x, callee, args); ok {
+			return v, true
+		}
 		if callee.Pkg.Pkg.Path() == "regexp" && callee.Name() == "MatchString" && len(args) == 2 {
 			re, ok := args[0].(Regex)
 			s, ok2 := args[1].(*Str)
@@ -421,6 +429,9 @@ func (fr *frame) stdlib(x *ssa.Call, callee *ssa.Function, args []Value) (Value,
 func (fr *frame) stdlibNamed(x *ssa.Call, full string, args []Value) (Value, bool) {
 	in := fr.in
 	if v, ok := fr.strFuncs(x, full, args); ok {
+		return v, true
+	}
+	if v, ok := fr.hashFuncs(x, full, args); ok {
 		return v, true
 	}
 	str := func(i int) *Str {
